@@ -41,6 +41,7 @@ def apply_edit(d, seed):
 
 def run_seed(seed):
     d = make_copy()
+    core.clear_ctx_cache()      # scratch copies are one-shot: never reuse a context across them
     try:
         err = apply_edit(d, seed)
         if err:
